@@ -27,6 +27,9 @@ pub fn f0_empty<const M: usize>() {
 
 /// Invalid minimum alignment: the constructor must not return.
 pub fn f0_invalid<const M: usize>() {
+    unsafe {
+        REFUSING_CTOR = true;
+    }
     let which: bool = kani::any();
     if which {
         let b = Bump::<M>::with_min_align();
